@@ -33,6 +33,8 @@ TRUSTED = [
     "httpx 0.28 behaviour as transcribed in Wire.v (query value -> str, header value must be str, json=/files=/"
     "data= encodings); httpx's own URL/query/multipart encoding is outside the model: requests are compared "
     "after decoding (unquote, parse_qsl, multipart split, json.loads)",
+    "urllib.parse.quote(v, safe='') followed by the server's unquote is the identity and yields no '/': a quoted "
+    "path value is modelled as one atom of one segment",
     "the driver (harness) that builds keyword arguments from an argument assignment",
 ]
 
@@ -132,9 +134,11 @@ def ordered_params(op: dict) -> list[dict]:
 # ------------------------------------------------------------------------------------------- values
 STRS = ["a", "x y", "été", "A-1", "v.2_3", "q&r=s", "7"]
 PATH_STRS = ["a", "x y", "é", "A-1", "v.2_3", "7"]
-# F04h.  Only plain '/': "../x" is additionally collapsed by httpx's dot-segment normalisation (path traversal:
-# observed '/o/7/k/../x' -> '/o/7/x'), and '?', '#', '%' change httpx's URL parsing - all outside the model
+# Reserved characters in path values.  The standard method percent-encodes them (fixed F04h): any of these must
+# arrive as ONE segment.  The multi-content dispatch still interpolates raw (F04b): only plain '/' is used there
+# ('?', '#', '%', '..' change httpx's URL parsing / get collapsed - outside the model of the raw interpolation)
 SLASH_STRS = ["a/b", "x/", "p/q/r"]
+RESERVED_STRS = SLASH_STRS + ["../x", "x?y=1#f", "50%41", "a b/c"]
 INTS = [0, 7, -3, 12345]
 DATES = ["2020-01-02", "1999-12-31"]
 DTS = ["2020-01-02T03:04:05", "1999-12-31T23:59:59"]
@@ -149,7 +153,7 @@ def gen_scalar(rng, p: dict, in_path: bool) -> dict:
         if p["in"] in ("header", "cookie"):
             return {"t": "str", "v": rng.choice(HDR_STRS[:-1] if p["in"] == "cookie" else HDR_STRS)}
         if in_path and p.get("slashy") and rng.random() < 0.5:
-            return {"t": "str", "v": rng.choice(SLASH_STRS)}
+            return {"t": "str", "v": rng.choice(SLASH_STRS if p["slashy"] == "raw" else RESERVED_STRS)}
         return {"t": "str", "v": rng.choice(PATH_STRS if in_path else STRS + [""])}
     if t == "int":
         return {"t": "int", "v": rng.choice(INTS)}
@@ -267,9 +271,10 @@ def gen_op(rng, idx: int, flavour: str = "plain") -> dict:
         params.append({"name": n, "in": "header", "required": rng.random() < 0.3, "ty": t,
                        "array": flavour != "safe" and rng.random() < 0.05, "level": rng.choice(["path", "op", "op"]),
                        **({"enum": "Color"} if t == "enum" else {})})
-    if flavour != "safe" and rng.random() < 0.2:
-        params.append({"name": rng.choice(C_NAMES), "in": "cookie", "required": False, "ty": "str", "array": False,
-                       "level": "op"})
+    if rng.random() < 0.25:
+        t = "str" if flavour == "safe" else rng.choice(["str", "str", "enum", "int"])
+        params.append({"name": rng.choice(C_NAMES), "in": "cookie", "required": rng.random() < 0.3, "ty": t,
+                       "array": False, "level": rng.choice(["path", "op"]), **({"enum": "Color"} if t == "enum" else {})})
     rng.shuffle(params)
     r = rng.random()
     body: list[str] = []
@@ -285,6 +290,10 @@ def gen_op(rng, idx: int, flavour: str = "plain") -> dict:
         body = rng.choice([[J, MP], [MP, J], [J, FORM], [J, MP, FORM], [FORM, MP]])
     op = {"id": f"op{idx}", "tag": "alpha", "method": method, "path": path, "params": params, "body": body,
           "body_required": bool(body) and rng.random() < 0.5}
+    if len(body) > 1:
+        for p in params:
+            if p.get("slashy"):
+                p["slashy"] = "raw"
     if J in body and rng.random() < 0.4:
         op["json_model"] = True
     elif J in body and rng.random() < 0.5:
@@ -647,6 +656,7 @@ def oracle(op: dict, a: dict, obs: dict) -> list[str]:
 
 
 # ------------------------------------------------------------------------------------------- Coq printers
+GUARD_FINDINGS = {1: "F04b", 2: "F04c", 3: "F04d", 4: "F04f", 5: "F04i"}   # bit k of Corr.C04.run
 LOC = {"path": "Path", "query": "Query", "header": "Header", "cookie": "Cookie"}
 TY = {"str": "TStr", "int": "TInt", "bool": "TBool", "enum": "TEnum", "date": "TDate", "datetime": "TDateTime"}
 
@@ -725,7 +735,8 @@ def c_obs(obs: dict) -> str:
     else:
         body = f"(OBytes {c_bytes(b[1])})"
     kv = lambda l: clist(cpair(cstr(k), cstr(v)) for k, v in l)  # noqa: E731
-    return (f"(Some {{| r_method := {cstr(r['method'])}; r_path := {cstr(r['path'])}; r_query := {kv(r['query'])}; "
+    return (f"(Some {{| r_method := {cstr(r['method'])}; r_path := {cstr(r['path'])}; "
+            f"r_segs := {clist(cstr(x) for x in r['segs'])}; r_query := {kv(r['query'])}; "
             f"r_headers := {kv(r['headers'])}; r_cookies := {kv(r['cookies'])}; "
             f"r_ctype := {copt(r['ctype'], cstr)}; r_body := {body} |}})")
 
@@ -835,9 +846,9 @@ def main(chk: Check, replay: dict | None = None) -> int:
     if codes is not None:
         inside = [c for c, k in zip(cases, codes) if k == 0]
         dist["cases_inside_C04_partial_hypotheses"] = len(inside)          # well typed, every guard holds, model = impl
-        dist["cases_not_well_typed_in_the_model"] = sum(1 for k in codes if k >> 9 & 1)
-        dist["cases_per_failed_guard"] = {f"F04{'abcdefgh'[i - 1]}": sum(1 for k in codes if k >> i & 1) for i in range(1, 9)}
-    chk.decide(cases, codes, {1: "F04a", 2: "F04b", 3: "F04c", 4: "F04d", 5: "F04e", 6: "F04f", 7: "F04g", 8: "F04h"},
+        dist["cases_not_well_typed_in_the_model"] = sum(1 for k in codes if k >> (len(GUARD_FINDINGS) + 1) & 1)
+        dist["cases_per_failed_guard"] = {f: sum(1 for k in codes if k >> i & 1) for i, f in GUARD_FINDINGS.items()}
+    chk.decide(cases, codes, GUARD_FINDINGS,
                "Corr.C04.run: Wire.call(model) = request captured under MockTransport (after decoding)")
     return chk.finish(
         TRUSTED,
